@@ -365,14 +365,47 @@ func (t *transpiler) evaluateFor(forStatement parser.For) error {
 	return conv.ForEnd()
 }
 
-func (t *transpiler) evaluateVarDefinition(definition parser.VariableDefinition) error {
-	for i, variable := range definition.Variables() {
-		result, err := t.evaluateExpression(definition.Values()[i], true)
+// evaluateSimultaneousValues evaluates all right-hand sides before anything is
+// assigned (a, b = b, a must use the old values). Results are textual references,
+// so with more than one target they are stored in temporaries first.
+func (t *transpiler) evaluateSimultaneousValues(values []parser.Expression) ([]string, error) {
+	results := []string{}
+
+	for i, value := range values {
+		result, err := t.evaluateExpression(value, true)
 
 		if err != nil {
-			return err
+			return nil, err
 		}
-		err = t.converter.VarDefinition(variable.Name(), result.firstValue(), variable.Global())
+		s := result.firstValue()
+
+		if len(values) > 1 {
+			temp := fmt.Sprintf("_ma%d", i)
+			err = t.converter.VarDefinition(temp, s, false)
+
+			if err != nil {
+				return nil, err
+			}
+			s, err = t.converter.VarEvaluation(temp, true, false)
+
+			if err != nil {
+				return nil, err
+			}
+		}
+		results = append(results, s)
+	}
+	return results, nil
+}
+
+func (t *transpiler) evaluateVarDefinition(definition parser.VariableDefinition) error {
+	values, err := t.evaluateSimultaneousValues(definition.Values())
+
+	if err != nil {
+		return err
+	}
+
+	for i, variable := range definition.Variables() {
+		err = t.converter.VarDefinition(variable.Name(), values[i], variable.Global())
 
 		if err != nil {
 			return err
@@ -407,13 +440,14 @@ func (t *transpiler) evaluateVarDefinitionCallAssignment(definition parser.Varia
 }
 
 func (t *transpiler) evaluateVarAssignment(assignment parser.VariableAssignment) error {
-	for i, variable := range assignment.Variables() {
-		result, err := t.evaluateExpression(assignment.Values()[i], true)
+	values, err := t.evaluateSimultaneousValues(assignment.Values())
 
-		if err != nil {
-			return err
-		}
-		err = t.converter.VarDefinition(variable.Name(), result.firstValue(), variable.Global())
+	if err != nil {
+		return err
+	}
+
+	for i, variable := range assignment.Variables() {
+		err = t.converter.VarDefinition(variable.Name(), values[i], variable.Global())
 
 		if err != nil {
 			return err
